@@ -153,6 +153,7 @@ class Growth(object):
         self.count = {}
         self.samples = []
         self.solver_runs = 2                 # set_feasible / set_valid runs per partition
+        self.nk = float                      # number type the current state is written in (rotated per state: number_kind)
         if hdr is not None:
             self.gf = [gfunc(g) for g in hdr["gfuncs"]]
             self.pf = [self.H.pyfunc(f) for f in hdr["funcs"]]
@@ -264,10 +265,38 @@ class Growth(object):
             self.samples.append({"bounds call": call, "lower": o["lower"], "upper": o["upper"], "pts": o["shape"],
                                  "measure inside": o["inside"]})
 
+    # ---------------------------------------------------------------- number spelling of a measure / scenario state
+    NUMBER_KINDS = ("float", "int", "numpy.float64", "numpy.int64")
+
+    def number_kind(self, o):
+        """the model's integers written as python floats | python ints | numpy.float64 | numpy.int64, by a deterministic
+        rotation over the states; what mystic returns is compared after float()"""
+        import numpy
+        k = digest(("num", o["shape"], o["flat"], o["vals"])) % 4
+        self.nk = (float, int, numpy.float64, numpy.int64)[k]
+        self.bump("states_written_as_" + self.NUMBER_KINDS[k])
+
+    def N(self, seq):
+        return [self.nk(v) for v in seq]
+
+    def N2(self, rows):
+        return [[self.nk(v) for v in row] for row in rows]
+
+    def build_pm(self, ws, xs):
+        D, nk = self.D, self.nk
+        return D.product_measure([D.measure([D.point_mass(nk(x), nk(w)) for x, w in zip(xr, wr)]) for xr, wr in zip(xs, ws)])
+
+    def build_scen(self, ws, xs, vals):
+        s = self.D.scenario()
+        s[:] = list(self.build_pm(ws, xs))
+        s.values = self.N(vals)
+        return s
+
     # ---------------------------------------------------------------- PART 2/3: one measure / scenario state
     def stat_state(self, o):
         H, D, M = self.H, self.D, self.M
         ws, xs, shape, vals = o["ws"], o["xs"], o["shape"], o["vals"]
+        self.number_kind(o)
         ctx = {"state": {"shape": shape, "ws": ws, "xs": xs, "vals": vals}}
         self.cases += 1
         if len(shape) > 1 or any(w == 0 for row in ws for w in row):
@@ -288,23 +317,23 @@ class Growth(object):
         H, D, M = self.H, self.D, self.M
         ws, xs, shape = o["ws"], o["xs"], o["shape"]
         fws, fxs = fl2(ws), fl2(xs)
-        c = H.build_pm(ws, xs)
+        c = self.build_pm(ws, xs)
         E = self.eq
         tols = self.hdr["tols"]
         self.bump("measure_states")
         # nested <-> flat helpers
         E("stat:flat", "_flat(c.wts)", lambda: fl(M._flat(c.wts)), fl(me["flatw"]), ctx)
         E("stat:flat", "_flat(c.pos)", lambda: fl(M._flat(c.pos)), fl(me["flatx"]), ctx)
-        E("stat:nested", "_nested(_flat(c.wts), pts)", lambda: fl2(M._nested(fl(me["flatw"]), shape)), fws, ctx)
+        E("stat:nested", "_nested(_flat(c.wts), pts)", lambda: fl2(M._nested(self.N(me["flatw"]), shape)), fws, ctx)
         E("stat:split_param", "split_param(flatten(), pts)",
           lambda: tuple(fl(v) for v in M.split_param(c.flatten(), c.pts)), (fl(me["flatw"]), fl(me["flatx"])), ctx)
         E("stat:split_param", "split_param(flatten(), tuple(pts))",
           lambda: tuple(fl(v) for v in M.split_param(c.flatten(), tuple(c.pts))), (fl(me["flatw"]), fl(me["flatx"])), ctx)
         # _list_of_measures
         def lom(weights):
-            ms = D._list_of_measures(fxs, weights) if weights is not None else D._list_of_measures(fxs)
+            ms = D._list_of_measures(self.N2(xs), weights) if weights is not None else D._list_of_measures(self.N2(xs))
             return [type(m).__name__ for m in ms], [fl(m.weights) for m in ms], [fl(m.positions) for m in ms]
-        E("stat:_list_of_measures", "_list_of_measures(x, w)", lambda: lom(fws), (["measure"] * len(shape), fws, fxs), ctx)
+        E("stat:_list_of_measures", "_list_of_measures(x, w)", lambda: lom(self.N2(ws)), (["measure"] * len(shape), fws, fxs), ctx)
         E("stat:_list_of_measures", "_list_of_measures(x) (uniform weights)", lambda: lom(None),
           (["measure"] * len(shape), [rats(f["uni"]) for f in me["fac"]], fxs), ctx,
           cmp=lambda g, e: g[0] == e[0] and g[2] == e[2] and len(g[1]) == len(e[1]) and all(allclose(a, b) for a, b in zip(g[1], e[1])))
@@ -339,7 +368,8 @@ class Growth(object):
                 E("stat:measure-support", "measure.support(%s)" % tol, lambda: fl(mo.support(tol)),
                   [float(x) for x, bit in zip(xs[m], mask) if bit], tctx)
             # normalize
-            w = fws[m]
+            w = self.N(ws[m])                 # the arguments as this state is written; fws / fxs are the expected floats
+            xm = self.N(xs[m])
             total = sum(ws[m])
             E("stat:normalize", "normalize(w, 1.0)", lambda: fl(M.normalize(list(w), 1.0)), rats(fac["norm1"]), mctx, cmp=allclose)
             E("stat:normalize", "normalize(w, mass=2.0)", lambda: fl(M.normalize(list(w), mass=2.0)), rats(fac["norm2"]), mctx, cmp=allclose)
@@ -352,7 +382,7 @@ class Growth(object):
                   lambda: fl(M.normalize(list(w), 0.0, zsum=True, zmass=2.0)), rats(fac["zsum2"]), mctx, cmp=allclose)
                 # measure.normalize(): weights to mass 1, the mean (and here the positions) preserved
                 def norm_method():
-                    mm = D.measure([D.point_mass(float(x), float(wt)) for x, wt in zip(xs[m], ws[m])])
+                    mm = D.measure([D.point_mass(self.nk(x), self.nk(wt)) for x, wt in zip(xs[m], ws[m])])
                     mm.normalize()
                     return fl(mm.weights), fl(mm.positions)
                 E("stat:measure-normalize", "measure.normalize()", norm_method, (rats(fac["norm1"]), fxs[m]), mctx,
@@ -362,7 +392,7 @@ class Growth(object):
                     out = []
                     for u in self.hdr["useq"]:
                         with scripted([u]):
-                            out.append(float(M.weighted_select(list(fxs[m]), list(w))))
+                            out.append(float(M.weighted_select(list(xm), list(w))))
                     return out
                 E("stat:weighted_select", "weighted_select(x, w) for each scripted u", selects,
                   [fxs[m][j] for j in fac["sel"]], dict(mctx, useq=self.hdr["useq"]))
@@ -375,7 +405,7 @@ class Growth(object):
                         continue
                     self.bump("bounded_mean_translation" if bm["inside"] else "bounded_mean_squeezed")
                     try:
-                        got = fl(D.bounded_mean(target, list(fxs[m]), lo, hi, list(w)))
+                        got = fl(D.bounded_mean(target, list(xm), lo, hi, list(w)))
                     except Exception as ex:
                         self.violation("stat:bounded_mean:raises-%s" % type(ex).__name__, dict(bctx, error=repr(ex)),
                                        "bounded_mean(%r, %s, %s, %s, %s) raised %r" % (target, fxs[m], lo, hi, w, ex))
@@ -486,15 +516,15 @@ class Growth(object):
         self.bump("value_states")
         # the constraints factories
         E("stat:norm_wts", "norm_wts_constraintsFactory(pts)(w,x,y)",
-          lambda: fl(D.norm_wts_constraintsFactory(tuple(shape))(list(flat + fvals))), fl(o["normwts"]), ctx)
+          lambda: fl(D.norm_wts_constraintsFactory(tuple(shape))(self.N(o["flat"] + vals))), fl(o["normwts"]), ctx)
         tgt = self.hdr["ytarget"]
         E("stat:mean_y_norm_wts", "mean_y_norm_wts_constraintsFactory(%s, pts)(w,x,y)" % (tgt,),
-          lambda: fl(D.mean_y_norm_wts_constraintsFactory((float(tgt[0]), float(tgt[1])), tuple(shape))(list(flat + fvals))),
+          lambda: fl(D.mean_y_norm_wts_constraintsFactory((float(tgt[0]), float(tgt[1])), tuple(shape))(self.N(o["flat"] + vals))),
           fl(o["normwts"][:len(flat)]) + rats(o["meany"]), ctx, cmp=allclose)
         self.bump("mean_y_moved" if any(r[1] != 1 or r[0] != v for r, v in zip(o["meany"], vals)) else "mean_y_kept")
         # shortness
         from mystic.math.legacydata import dataset
-        s = H.build_scen(ws, xs, fvals)
+        s = self.build_scen(ws, xs, vals)
         for r in o["short"]:
             L, tol = fl(r["L"]), r["tol"]
             kw = {"tol": float(tol)} if tol else {}
@@ -533,7 +563,7 @@ class Growth(object):
             self.cases += 1
             self.nontrivial.add(digest(("t", shape, o["flat"], vals, a["a"])))
             self.bump("set_mean_value")
-            s2 = H.build_scen(ws, xs, fvals)
+            s2 = self.build_scen(ws, xs, vals)
             try:
                 s2.set_mean_value(target)
                 got = (float(s2.mean_value()), fl(s2.values), fl(s2.flatten(all=False)))
@@ -821,13 +851,23 @@ def work(args):
     return job, mc, res
 
 
+def growth_items(a, corrupt=False, light=False):
+    """the arguments of work() for every growth job (check_C19 runs them in its own pool, next to the main partitions)"""
+    return [(j, a.seed, light, corrupt) for j in jobs_for(a, light)]
+
+
 def growth_part(ck, a, corrupt=False, light=False):
     """run the growth models and their replay; fold cases / violations / TLC runs into the Check `ck`"""
     t0 = time.time()
-    jobs = jobs_for(a, light)
+    items = growth_items(a, corrupt, light)
     ctx = mp.get_context("fork")
-    with ctx.Pool(min(len(jobs), max(1, a.jobs))) as pool:
-        results = pool.map(work, [(j, a.seed, light, corrupt) for j in jobs], chunksize=1)
+    with ctx.Pool(min(len(items), max(1, a.jobs))) as pool:
+        results = pool.map(work, items, chunksize=1)
+    growth_fold(ck, a, results, time.time() - t0)
+
+
+def growth_fold(ck, a, results, wall_s):
+    """fold the results of the growth jobs (cases / violations / TLC runs) into the Check `ck`"""
     count = {}
     folded = {}
     for job, mc, res in results:
@@ -857,7 +897,7 @@ def growth_part(ck, a, corrupt=False, light=False):
             for _ in range(n):
                 ck.violation(key, detail, what)
     ck.mc_runs.extend(folded.values())
-    ck.extra["growth"] = {"counts": count, "wall_s": round(time.time() - t0, 1),
+    ck.extra["growth"] = {"counts": count, "wall_s": round(wall_s, 1),
                           "slowest_job_s": round(max((mc.get("replay_s", 0) + (mc.get("wall_s") or 0)) for _, mc, _ in results), 1)}
     ck.assumptions += [
         "growth (MeasureBounds.tla): bounds are replayed with integer / +-inf arguments, sequences as tuples and lists, x bounds "
@@ -954,7 +994,7 @@ def mutants():
              "norm_wts": D.norm_wts_constraintsFactory, "SC.set_mean_value": SC.set_mean_value,
              "rw_mean": M.impose_reweighted_mean, "split_param": M.split_param, "PM.update": PM.update,
              "SC.valid": SC.valid_wrt_model, "PM.sampled_support": PM.sampled_support, "MB.xupper": MB.xupper,
-             "bounded_mean": D.bounded_mean, "ME.ess_ptp": ME.ess_ptp}
+             "bounded_mean": D.bounded_mean, "ME.ess_ptp": ME.ess_ptp, "M.impose_mean": M.impose_mean, "D.impose_mean": D.impose_mean}
     import mystic.math.distance as DS
     saved["lipschitz_metric"] = DS.lipschitz_metric
 
@@ -967,6 +1007,7 @@ def mutants():
         M.impose_reweighted_mean, M.split_param, PM.update = saved["rw_mean"], saved["split_param"], saved["PM.update"]
         SC.valid_wrt_model, PM.sampled_support, MB.xupper = saved["SC.valid"], saved["PM.sampled_support"], saved["MB.xupper"]
         D.bounded_mean, ME.ess_ptp = saved["bounded_mean"], saved["ME.ess_ptp"]
+        M.impose_mean, D.impose_mean = saved["M.impose_mean"], saved["D.impose_mean"]
 
     def seqs(self):
         one = lambda v: (v,) if not hasattr(v, "__len__") else v
@@ -1086,6 +1127,15 @@ def mutants():
             return x, w
         M.split_param = split_param
 
+    def m_impose_mean_keeps_dtype():      # the shifted points are written into an array of the samples' own dtype: integers
+        def impose_mean(m, samples, weights=None):          # truncate (only states written with python / numpy ints notice)
+            samples = numpy.asarray(list(samples))
+            shift = m - M.mean(samples, weights)
+            out = numpy.empty_like(samples)
+            out[:] = samples + shift
+            return list(out)
+        M.impose_mean = D.impose_mean = impose_mean
+
     def m_update_in_place():              # the seeded change C19d: update writes into the existing factor measures
         def update(self, params):
             pts = self.pts
@@ -1117,6 +1167,7 @@ def mutants():
            ("split_param returns (positions, weights)", ("stat", "bounds"), m_split_param_swapped),
            ("bounded_mean ignores the weights", ("stat",), m_bounded_mean_unweighted),
            ("measure.ess_ptp is the plain ptp", ("stat",), m_ess_ptp_is_ptp),
+           ("impose_mean keeps the samples' integer dtype (set_mean_value / bounded_mean on states written with ints)", ("stat",), m_impose_mean_keeps_dtype),
            ("impose_reweighted_mean drops the total weight", ("rw",), m_reweight_drops_total),
            ("product_measure.update writes into the existing measures (seeded change C19d)", ("alias",), m_update_in_place)]
     return cat, restore
